@@ -5,6 +5,7 @@ from vlib import cz, czl
 
 LEVEL_TEXT = ("Theorems in Coq over an abstract field with conjugation (any order, any lag sequence): the model of "
               "LEVINSON satisfies T_p[1,a]=[P,0..0], P=r0*prod(1-|k|^2), nesting, and raises exactly at a stage with P<=0; "
+              "in the abstract ordered *-field a positive-definite r gives P>0, |k|<1 at every order and a stable polynomial; "
               "the models of HERMTOEP and of the general TOEPLITZ return x with T x = z (HERMTOEP fails only at a stage with P<=0). "
               "The hand-written Gallina model is tied to the code by running both on the same exact dyadic inputs "
               "(vm_compute over Gaussian rationals, comparison inside Coq) and a property-directed search on the implementation.")
@@ -12,9 +13,7 @@ TRUSTED = ["Coq 8.16.1 kernel + vm_compute (no native_compute)",
            "hand-written model coq/Model/Levinson.v, tied to levinson.py/toeplitz.py by the correspondence run only",
            "numpy.linalg / scipy.linalg back ends of CHOLESKY are modelled as 'solve', not verified",
            "Python harness (snapshot, generators, float->dyadic conversion)"]
-UNPROVED = ["positive definite => P_m > 0 and |k_m| < 1 (order argument in R): search only",
-            "stability (roots inside the unit circle): search only",
-            "CHOLESKY (numpy/scipy back ends): residual search only",
+UNPROVED = ["CHOLESKY (numpy/scipy back ends): residual search only",
             ]
 ASSUMPTIONS = ["exact arithmetic in the theorems; rounding error of the binary64 code is not bounded by any theorem",
                "inputs of the correspondence run are dyadic rationals with few significant bits"]
